@@ -1083,7 +1083,7 @@ pub fn families_c11(tier: Tier) -> Vec<Family> {
     {
         let sg = DocGen { leaves: gen::strs(&["null", "0"]), keys: gen::strs(&["\"a\"", "\"b\""]), style: gen::COMPACT, allow_dup_keys: false };
         let dg = DocGen { leaves: gen::strs(&["1", "\"x\""]), keys: gen::strs(&["\"a\"", "\"b\"", "\"c\""]), style: gen::SPACED, allow_dup_keys: false };
-        let schemas: Vec<String> = sg.docs(if q { 3 } else { 4 }).into_iter().filter(|s| s.starts_with('{')).collect();
+        let schemas: Vec<String> = sg.docs(4).into_iter().filter(|s| s.starts_with('{')).collect();
         let docs: Vec<String> = dg.docs(if q { 3 } else { 4 }).into_iter().filter(|s| s.starts_with('{')).collect();
         let nd = docs.len() as u64;
         let ns = schemas.len() as u64;
